@@ -257,6 +257,7 @@ class G:
     def __init__(self, rng):
         self.rng = rng
         self.k = 0
+        self.textm = 0.0     # share of leaves that are members of texts: 长度 / 转换数值 (numbers), 匹配… (truth values), the other text methods
         self.bumps = 0.0     # share of number leaves that are `以 ‹literal›（自增/自减：k）` / （升：‹literal›、k） (needs BUMP in the prelude)
 
     def fresh(self):
@@ -271,7 +272,28 @@ class G:
             return Var(self.rng.choice(nv))
         if self.bumps and self.rng.random() < self.bumps:
             return self.bumped_literal()
+        if self.textm and self.rng.random() < self.textm:
+            # a number that comes out of a text: its length, or the text read as a numeral
+            if self.rng.random() < 0.5:
+                return Prop(self.text_leaf(env), self.rng.choice(['长度', '字数']))
+            return MCall(Str(self.rng.choice(['12', '-3.5', '1*^3', '2.5*10^2', '0.5', '1e3', '007', '+4', '.5', '5.', '1*10^400', '1e-400'])), [('转换数值', [])])
         return Num(self.rng.choice(NUM_LITS))
+
+    def text_leaf(self, env):
+        sv = [n for n, t in env.items() if t == 'str']
+        if sv and self.rng.random() < 0.3:
+            return Var(self.rng.choice(sv))
+        return Str(self.rng.choice(TEXTS + ['Ab你', ' a ', 'a,b', 'aXa', '{#1}']))
+
+    def text_call(self, env):
+        """a text method applied to a text: (expression, what it yields)"""
+        rng = self.rng
+        m = rng.choice(['替换', '分隔', '取样', '去除空格', '转小写-英文', '转大写-英文', '拼接', '格式化'])
+        t = self.text_leaf
+        args = {'替换': lambda: [t(env), t(env)], '分隔': lambda: [Str(rng.choice(['', ',', 'a', 'X', '你']))],
+                '取样': lambda: [Num(rng.choice(['1', '2', '-1', '-2'])), Num(rng.choice(['1', '2', '3', '-1']))],
+                '拼接': lambda: [t(env) for _ in range(rng.randint(0, 2))], '格式化': lambda: [t(env) for _ in range(rng.randint(0, 2))]}.get(m, lambda: [])()
+        return MCall(t(env), [(m, args)])
 
     def bumped_literal(self, step=None):
         """a number literal that is changed in place right where it stands: as the receiver of 自增 / 自减, as the argument of a
@@ -294,11 +316,15 @@ class G:
         bv = [n for n, t in env.items() if t == 'bool']
         if bv and self.rng.random() < 0.3:
             return Var(self.rng.choice(bv))
+        if self.textm and self.rng.random() < self.textm:
+            return MCall(self.text_leaf(env), [(self.rng.choice(['匹配', '匹配开头', '匹配结尾']), [self.text_leaf(env)])])
         return Var(self.rng.choice(['真', '假']))
 
     def other_leaf(self, env):
         r = self.rng.random()
         sv = [n for n, t in env.items() if t == 'str']
+        if self.textm and self.rng.random() < self.textm:
+            return self.text_call(env)
         if r < 0.3:
             return Str(self.rng.choice(TEXTS))
         if r < 0.4 and sv:
@@ -393,6 +419,7 @@ class G:
         ill = rng.choice([0.0, 0.0, 0.05, 0.15])
         want = rng.choice(['num', 'bool', 'bool', 'num', 'any'])
         self.bumps = rng.choice([0.0, 0.05, 0.15])
+        self.textm = rng.choice([0.0, 0.0, 0.1, 0.25])
         try:
             if rng.random() < 0.2:
                 # the same expression evaluated two or three times (loop body): it yields its documented value every time
@@ -407,6 +434,7 @@ class G:
                 body.append(Ret(self.expr(want, depth, env, ill)))
         finally:
             self.bumps = 0.0
+            self.textm = 0.0
         return Program(inputs, body), ins
 
     # ---- statements (C02) --------------------------------------------------------------------------
@@ -1336,6 +1364,123 @@ class G:
                 ks[d] += [k + tag for k in ks[d]]
             body += observe()
         return Program([], body), {}
+
+    # ---- text methods (C14 / C10) -------------------------------------------------------------------
+    def text_program(self, steps):
+        """texts held by variables, inputs and literals go through the text members — 长度 字数 文本 字符组, 替换 分隔 匹配 匹配开头
+        匹配结尾 取样 去除空格 转小写-英文 转大写-英文 拼接 格式化 转换数值 — with well-typed arguments mostly, ill-typed and miscounted ones
+        now and then; results are displayed, bound to names and fed to later calls (also as chains 以X（…）、（…）); 转换数值 on a
+        variable is followed by a display of that variable (it rewrites `*^` / `*10^` in its receiver); the exceptions of 取样 and
+        转换数值 end the program or are taken by a 拦截异常 handler of the program"""
+        rng = self.rng
+        LIT = ['', 'a', 'ab', 'abc', 'aXbXc', 'Hello World', 'ABCxyz', '  a b  ', 'a,b,,c', '你好', '你好，世界', '甲乙丙丁', 'a你b好', '😀x😀', 'é',
+               '１２', 'aaa', 'abab', '{#1}-{#2}', '{#2}{#1}{#3}', '12', '-3.5', '1*^3', '2.5*10^2', '1e3', '1e', 'x1', '0.5', '+7', '.5', '　全角　',
+               '\t缩进', 'Ｚ', 'zZ@[`{']
+        SEPS = ['', ',', 'X', 'a', 'b', '你', '，', 'ab', '😀', ' ', 'aa', '好，', '-']
+        texts, nums = [], []
+        body, inputs, ins = [], [], {}
+        for n, v in (('入甲', ' \u3000a b\u00a0\t'), ('入乙', '“引”`号`'), ('入丙', '6.02*10^23'), ('入丁', 'A你B好C')):
+            if rng.random() < 0.4:
+                inputs.append(n)
+                ins[n] = v
+                texts.append(n)
+        for i in range(rng.randint(1, 3)):
+            n = '文%d' % self.fresh()
+            body.append(Decl([n], Str(rng.choice(LIT))))
+            texts.append(n)
+        if rng.random() < 0.5:
+            body.append(Decl(['数'], Num(rng.choice(['1', '2', '-1', '0', '3', '2.5']))))
+            nums.append('数')
+
+        def text(depth=1):
+            k = rng.random()
+            if k < 0.45:
+                return Var(rng.choice(texts))
+            if k < 0.8 or depth <= 0:
+                return Str(rng.choice(LIT))
+            return pure_call(depth - 1)
+
+        def sep():
+            return Str(rng.choice(SEPS)) if rng.random() < 0.8 else text(0)
+
+        def num():
+            k = rng.random()
+            if nums and k < 0.2:
+                return Var(rng.choice(nums))
+            if k < 0.3:
+                return Prop(text(0), rng.choice(['长度', '字数']))
+            return Num(rng.choice(['1', '2', '3', '-1', '-2', '0', '4', '7', '-9', '1.5', '2.9']))
+
+        def wrong():
+            return rng.choice([Num('1'), Var('真'), Var('空'), Arr([Str('a')]), Dict([(Var('a'), Str('a'))])])
+
+        def pure_call(depth=1):
+            """a call whose result is a text (or a list / truth value for 分隔 / 匹配…), never changing its receiver"""
+            m = rng.choice(['替换', '替换', '分隔', '匹配', '匹配开头', '匹配结尾', '取样', '取样', '去除空格', '转小写-英文', '转大写-英文', '拼接', '格式化'])
+            recv = text(depth)
+            if m == '替换':
+                args = [sep(), text(0)]
+            elif m in ('分隔', '匹配', '匹配开头', '匹配结尾'):
+                args = [sep()]
+            elif m == '取样':
+                args = [num(), num()]
+            elif m in ('拼接', '格式化'):
+                args = [text(0) for _ in range(rng.randint(0, 3))]
+            else:
+                args = []
+            k = rng.random()
+            if k < 0.05 and args:
+                args[rng.randrange(len(args))] = wrong()
+            elif k < 0.09:
+                args = args[:-1] if args and rng.random() < 0.5 else args + [text(0)]
+            chain = [(m, args)]
+            if m in ('去除空格', '转小写-英文', '转大写-英文', '拼接', '替换', '格式化', '取样') and rng.random() < 0.25:
+                m2 = rng.choice(['转大写-英文', '转小写-英文', '去除空格', '分隔', '匹配', '拼接', '取样'])
+                chain.append((m2, {'分隔': [sep()], '匹配': [sep()], '拼接': [text(0)], '取样': [num(), num()]}.get(m2, [])))
+            return MCall(recv, chain)
+
+        for _ in range(steps):
+            r = rng.random()
+            if r < 0.4:
+                body.append(ExprS(Call('显示', [pure_call(2)])))
+            elif r < 0.5:
+                t = text(1)
+                body.append(ExprS(Call('显示', [Prop(t, rng.choice(['长度', '字数', '文本', '字符组', '字符组']))])))
+            elif r < 0.62:
+                n = '果%d' % self.fresh()
+                body.append(Decl([n], pure_call(1)))
+                body.append(ExprS(Call('显示', [Var(n)])))
+                # the result may be a list or a truth value: it joins the texts only when it is certainly a text
+                c = body[-2].e.chain[-1][0]
+                if c in ('去除空格', '转小写-英文', '转大写-英文', '拼接', '替换', '格式化', '取样'):
+                    texts.append(n)
+            elif r < 0.8:
+                # 转换数值: the number, then what the receiver holds
+                v = rng.choice(texts)
+                if rng.random() < 0.5:
+                    body.append(ExprS(Assign(Var(v), Str(rng.choice(['12', '-3.5', '1*^3', '2.5*10^2', '1e3', '7*^2*^1', '1*10^2*10^1', '0.5', '+7', '.5', '007', '1e308',
+                                                                    '1e', 'x1', '甲*^乙', '', '1*^', ' 1', '1.2.3', '１２'])))) if v not in inputs else ExprS(Call('显示', [Var(v)])))
+                k = rng.random()
+                if k < 0.5:
+                    body.append(ExprS(Call('显示', [MCall(Var(v), [('转换数值', [])])])))
+                elif k < 0.8:
+                    body.append(ExprS(Call('显示', [Bin('+', MCall(Var(v), [('转换数值', [])]), Num('1'))])))
+                else:
+                    body.append(ExprS(Call('显示', [MCall(Str(rng.choice(['12', '2*^2', '1*10^3', 'x', '3.25'])), [('转换数值', [Str('多余')] if rng.random() < 0.2 else [])])])))
+                body.append(ExprS(Call('显示', [Var(v), Prop(Var(v), '长度')])))
+            elif r < 0.9:
+                c = pure_call(1)
+                c.chain = [(rng.choice(['匹配', '匹配开头', '匹配结尾']), [sep()])]
+                body.append(If(c, [ExprS(Call('显示', [Str('中')]))], [], [ExprS(Call('显示', [Str('不中')]))]))
+            else:
+                body.append(Iter(['字'], Prop(text(0), '字符组') if rng.random() < 0.5 else MCall(text(0), [('分隔', [sep()])]),
+                                 [ExprS(Call('显示', [Var('字'), MCall(Var('字'), [('拼接', [Str('!')])])]))]))
+        body.append(Ret(Arr([Var(t) for t in texts[:4]])))
+        catches = []
+        if rng.random() < 0.4:
+            # (the handler names inputs only: a body-level 令 is gone when the handler runs — the statement block is its own scope)
+            catches = [('异常', [ExprS(Call('显示', [Str('拦')])), Ret(Arr([Var(t) for t in inputs]))])]
+        return Program(inputs, body, catches), ins
 
     # ---- scoping (C06) ---------------------------------------------------------------------------
     def scope_program(self):
